@@ -143,4 +143,83 @@ example : (normalise demo2).toOption.map (fun nd => nd.subgraphs.map fun s => (s
 example : (normalise demo2).toOption.map (fun nd => nd.metadata.map fun md => (md.nameIsBytes, md.name, md.data.isSome))
     = some [(true, bytes "note", false), (true, velaVersionName, true), (true, omaName, true)] := by decide +kernel
 
+/-! ## non-vacuity with surgery: constant convolution weights, a virtual output -/
+
+/-- `Demo.demo` (a convolution whose weights `w` are constant; the description holds the reader's clone `w_reshape` with
+`src_tensor = w`, which the writer replaces by `w` again) is in the domain, is not surgery-free, and both sides of the theorem are
+the same successful result -/
+example : RoundtripDomain demo ∧ ¬ NoSurgery demo ∧
+    ((write demo).toOption.bind fun m => (Reader.read demo.version m).toOption) = (normalise demo).toOption ∧
+    (normalise demo).toOption.isSome = true := by decide +kernel
+
+/-- … in which the clone of `w` (tensor 3 of the file) is re-created behind the file's tensors and the convolution reads it -/
+example : (normalise demo).toOption.map (fun nd => nd.tensors.map fun td => (td.name, td.src))
+    = some [(bytes "a_scratch", none), (bytes "unused", none), (bytes "v", none), (bytes "w", none), (bytes "x", none),
+            (bytes "y", none), (bytes "z", none), (bytes "w_reshape", some 3)] := by decide +kernel
+example : (normalise demo).toOption.map (fun nd => nd.subgraphs.flatMap fun s => s.ops.map fun o => (o.type, (o.inputs, o.outputs)))
+    = some [("Const", ([], [some 0])), ("Placeholder", ([], [some 1])), ("Const", ([], [some 3])), ("Placeholder", ([], [some 4])),
+            ("Const", ([], [some 7])), ("Conv2DBias", ([some 4, some 7, none], [some 5])), ("Custom", ([some 5, some 0], [some 6])),
+            ("Custom", ([some 6, some 0], [some 2]))] := by decide +kernel
+
+/-- an AssignVariable operator with its virtual output: the writer cuts the virtual output off, the reader re-creates it -/
+def demo3 : Desc :=
+  { tensors :=
+      [ t "x" [1, 2] "int8" none none 3 (some 0),
+        t "res" [] "resource" none none 0 none,
+        t "AssignVariable_0" [] "int8" none none 0 none none 7 ],
+    subgraphs :=
+      [ { name := bytes "main", cpu := true,
+          ops := [startup "Placeholder" 0, startup "Placeholder" 1,
+                  { type := "AssignVariable", customCode := [], version := 1, inputs := [some 1, some 0], outputs := [some 2],
+                    intermediates := [], payload := { optType := 0, opts := none, custom := none, customFormat := 0 } }],
+          originalInputs := [0, 1], inputTensors := [0, 1], outputTensors := [2], originalOutputPositions := some [],
+          virtualOutputs := [(2, some 2)] } ],
+    metadata := [], version := bytes "3.10.0" }
+
+example : RoundtripDomain demo3 ∧ ¬ NoSurgery demo3 ∧
+    ((write demo3).toOption.bind fun m => (Reader.read demo3.version m).toOption) = (normalise demo3).toOption ∧
+    (normalise demo3).toOption.isSome = true := by decide +kernel
+example : (normalise demo3).toOption.map (fun nd => nd.tensors.map (·.name))
+    = some [bytes "res", bytes "x", bytes "AssignVariable_0"] := by decide +kernel
+example : (normalise demo3).toOption.map (fun nd => nd.subgraphs.map fun s => (s.outputTensors, s.virtualOutputs))
+    = some [([2], [(2, some 2)])] := by decide +kernel
+
+/-! ## the domain clauses are needed -/
+
+def errorOf (r : Except String Desc) : String :=
+  match r with
+  | .error e => e
+  | .ok _ => ""
+
+/-- `demo2` with three bytes of data for the two-element int8 constant -/
+def badData : Desc :=
+  { demo2 with tensors := demo2.tensors.set 1 (t "c" [2] "int8" (some q8) (some (.raw [1, 2, 3])) 2 none) }
+
+/-- **roundtrip_dataOk_witness.** Outside `dataOk` the writer produces a file the reader rejects (ValueError of `reshape`), while
+the normal form exists: the clause cannot be dropped. -/
+theorem roundtrip_dataOk_witness : ¬ RoundtripDomain badData ∧
+    (write badData).toOption.map (fun m => errorOf (Reader.read badData.version m)) = some "value" ∧
+    (normalise badData).toOption.isSome = true := by decide +kernel
+
+/-- `demo2` with the NPU operator's result listed as an original input -/
+def badInput : Desc :=
+  { demo2 with subgraphs := demo2.subgraphs.map fun s => if s.cpu then { s with originalInputs := [0, 2] } else s }
+
+/-- **roundtrip_inputsNotProduced_witness.** An original input that a written operator produces: the writer writes it, the reader
+stops with `Tensor.error` ("vela-error"). -/
+theorem roundtrip_inputsNotProduced_witness : ¬ RoundtripDomain badInput ∧
+    (write badInput).toOption.map (fun m => errorOf (Reader.read badInput.version m)) = some "vela-error" ∧
+    (normalise badInput).toOption.isSome = true := by decide +kernel
+
+/-- on the domain the equation can also be an equation between failures, and only the reader's cloning step can fail: `demo` with
+two-dimensional constant convolution weights — writing succeeds, reading and normalising both fail with "index" -/
+def badWeightTensors : List TensorD :=
+  (demo.tensors.set 1 (t "w" [2, 2] "int8" (some q8) (some (.raw [1, 2, 3, 4])) 2 none)).set 2
+    (t "w_reshape" [2, 2] "int8" (some q8) (some (.digest 4 "clone")) 1 none (some 1))
+def badWeights : Desc := { demo with tensors := badWeightTensors }
+
+example : RoundtripDomain badWeights ∧
+    (write badWeights).toOption.map (fun m => errorOf (Reader.read badWeights.version m)) = some "index" ∧
+    errorOf (normalise badWeights) = "index" := by decide +kernel
+
 end VelaVerif.Props.C11Roundtrip
